@@ -124,7 +124,7 @@ End Checked.
 
 (* ---- the computed set passes (this is the finite part, done by the kernel) ---- *)
 Lemma reach_set_checked : check reach_set = true.
-Proof. vm_compute. reflexivity. Qed.
+Proof. vm_cast_no_check (eq_refl true). Qed.     (* the kernel evaluates the check once, at Qed *)
 
 (* ---- reachability in the local transition system ---- *)
 Inductive lreach (k : lconst) : lstate -> Prop :=
